@@ -617,6 +617,12 @@ func (fr *Frame) execInstr(ins ssa.Instruction, st *State) {
 	case *ssa.Store:
 		addr := fr.val(x.Addr, st)
 		v := fr.val(x.Val, st)
+		if _, isParam := x.Val.(*ssa.Parameter); isParam && addr.K == KAddr && addr.A.Kind == ACell {
+			// copying a parameter into its local cell is not a source-level assignment: no anchors fire
+			cellID(addr.A.Cell)
+			st.cells[addr.A.Cell] = coerce(v, addr.A.T)
+			return
+		}
 		fr.storeTo(x, addr, v, st)
 	case *ssa.UnOp:
 		fr.regs[x] = fr.execUnOp(x, st)
